@@ -53,6 +53,50 @@ def stubListing (empty : V) (l : Listing V) : Listing V :=
 def stubCont (empty : V) (r : Rec V) : Except Err (Rec V) :=
   materialise (stubListing empty (Overlay.listing r))
 
+
+/-! ## what the replay computes, as plain container arithmetic (used by the proofs and by the
+driver's well-formedness report) -/
+
+/-- attribute map after `copy_attrs` -/
+def putAll (as : List (Key × V)) (m : List (Key × Option V)) : List (Key × Option V) :=
+  as.foldl (fun m kv => aput kv.1 (some kv.2) m) m
+
+def rawKind : NKind V → RKind V
+  | .group => .vgroup
+  | .data v => .data v
+
+/-- what one replayed listing entry does to the container -/
+def apply1 (c : Cont V) (e : Path × NKind V × List (Key × V)) : Cont V :=
+  aput e.1 ⟨rawKind e.2.1, putAll e.2.2 []⟩ c
+
+def rootAttrsOf (l : Listing V) : List (Key × V) :=
+  match l.find? (fun e => e.1 == []) with
+  | some e => e.2.2
+  | none => []
+
+def nonRoot (l : Listing V) : Listing V := l.filter (fun e => e.1 != [])
+
+/-- the fresh container after the root attributes have been copied -/
+def rootCont (as : List (Key × V)) : Cont V :=
+  aput [] { (vnode : RNode V) with attrs := putAll as [] } Cont.init
+
+
+/-- decidable form of "the entry can be replayed": parent is an existing group, path is fresh -/
+def stepOkB (c : Cont V) (e : Path × NKind V × List (Key × V)) : Bool :=
+  match e.1.reverse with
+  | [] => false
+  | _ :: rpar =>
+    (match aget rpar.reverse c with
+      | some np => np.kind.isGroup
+      | none => false) && (aget e.1 c).isNone
+
+def chainB : Cont V → Listing V → Bool
+  | _, [] => true
+  | c, e :: more => stepOkB c e && chainB (apply1 c e) more
+
+/-- decidable form of `Replayable` (the view is a tree listed parents-first, no duplicates) -/
+def replayableB (l : Listing V) : Bool := chainB (rootCont (rootAttrsOf l)) (nonRoot l)
+
 /-! ## user blocks (identity of merged containers and stubs) -/
 
 structure UB where
